@@ -52,7 +52,22 @@ func (e *Engine) run(st *State) {
 			st.dead = true
 			return
 		}
+		var before map[string]string
+		var held []heldLock
+		if st.quiet == 0 {
+			for _, l := range st.locks {
+				if l.mon != nil && len(l.mon.Stable) > 0 {
+					held = append(held, l)
+				}
+			}
+			if len(held) > 0 {
+				before = snapshotHeaps(st)
+			}
+		}
 		e.step(st, fr, ins)
+		if before != nil && !st.dead {
+			e.stableStep(st, fr, held, before, ins)
+		}
 	}
 }
 
@@ -413,6 +428,7 @@ func (e *Engine) step(st *State, fr *Frame, ins ssa.Instruction) {
 		m := e.val(st, fr, x.X)
 		fr.regs[x] = Val{S: m.S, T: x.X.Type()} // iterator remembers the collection
 		if mt, isMap := x.X.Type().Underlying().(*types.Map); isMap {
+			e.lockCheckMap(st, fr, x.X, false, x.Pos(), x)
 			// ghost set of the keys visited so far
 			ks := sortOf(mt.Key())
 			hn := fmt.Sprintf("IT!%s!%d", funcDisplayName(fr.fn), x.Pos())
@@ -1182,6 +1198,7 @@ func (e *Engine) execNext(st *State, fr *Frame, x *ssa.Next) {
 	vals := sel(st.heap(vn, vs), it.S)
 	st.assume(implies(ok, and(not(eq(it.S, "0")), sel(dom, k.S))))
 	if rg, isRange := x.Iter.(*ssa.Range); isRange {
+		e.lockCheckMap(st, fr, rg.X, false, rg.Pos(), x)
 		if hn, has := iterOf[rg]; has {
 			// every key is yielded exactly once; iteration ends when all keys were visited (the map is assumed not to be
 			// modified while it is ranged over)
